@@ -21,6 +21,7 @@ ASSUMPTIONS = ["every command of a history looks at the same trash directories (
 FMT = '%Y-%m-%dT%H:%M:%S'
 
 
+RULE += ' Since round 19: trash-empty steps that read the wall clock under a time zone away from Greenwich, and steps that ask first (-i) with a yes or a no.'
 RULE += ' Since round 8: trash-rm steps whose payload removals are all refused (nothing purged, everything still listed); non-sticky .Trash modes include 0700/0750.'
 
 
@@ -128,8 +129,20 @@ def gen_history(rng, maxlen):
                 if known:
                     now = rng.choice(known) + datetime.timedelta(days=days)
             st = {'cmd': 'empty', 'argv': ([str(days)] if days is not None else []) + ['-f'], 'env': {'TRASH_DATE': now.strftime(FMT)}}
+            declined = False
+            mode = rng.random()
+            if mode < 0.2:
+                # the wall clock instead of TRASH_DATE, in a time zone away from Greenwich: deletion dates are local times, and so is "now"
+                st['env'] = {'TZ': rng.choice(['XST8', 'XST-9', 'XST3:30'])}
+                st['now'] = [now.year, now.month, now.day, now.hour, now.minute, now.second, 0]
+            elif mode < 0.4:
+                # asked first (-i): "y" purges exactly what -f purges, anything else purges nothing
+                reply = rng.choice(['y', 'y', 'Y', 'n', ''])
+                st['argv'][-1] = '-i'
+                st['stdin'] = reply + '\n'
+                declined = reply not in ('y', 'Y')
             fresh = None
-            if rng.random() < 0.3:
+            if mode >= 0.4 and rng.random() < 0.3:
                 # while trash-empty runs (right after its k-th removal) another trash-put completes in the home trash: a whole, brand-new
                 # entry.  Whatever trash-empty had listed before, that entry stays whole and is listed afterwards
                 fname = 'fresh%d' % k
@@ -144,7 +157,7 @@ def gen_history(rng, maxlen):
                     vv['after'] = rng.choice([1, 1, 2, 3]) if kk == 'midfs' else rng.randint(2, 40)
                 fresh = (fname, fdate.replace('T', ' '), '/was/' + fname)
             steps.append(st)
-            plan.append(('empty', days, now, fresh))
+            plan.append(('empty', days, now, fresh, declined))
         steps.append({'cmd': 'list', 'argv': []})
         plan.append(('list',))
     scn = lay.scenario(steps, cwd='/', extra=nodes)
@@ -210,6 +223,8 @@ def judge(run, scn, plan, res, section='history'):
                 if not m:
                     keep.append((date, path))
             bag = keep
+        elif pl[0] == 'empty' and len(pl) > 4 and pl[4]:
+            pass                                   # asked, and the answer was not yes: nothing leaves the trash
         elif pl[0] == 'empty':
             days, now = pl[1], pl[2]
             if days is None:
@@ -325,7 +340,8 @@ def replay(run, payload):
                 if isinstance(vv, dict) and vv.get('ops') and vv['ops'][-1][0] == 'write' and '/files/' in vv['ops'][-1][1]:
                     fname = os.path.basename(vv['ops'][-1][1])
                     fresh = (fname, st['env']['TRASH_DATE'].replace('T', ' '), '/was/' + fname)
-            plan.append(('empty', int(d[0]) if d else None, datetime.datetime.strptime(st['env']['TRASH_DATE'], FMT), fresh))
+            nowv = datetime.datetime(*st['now'][:6]) if st.get('now') else datetime.datetime.strptime(st['env']['TRASH_DATE'], FMT)
+            plan.append(('empty', int(d[0]) if d else None, nowv, fresh, '-i' in st['argv'] and (st.get('stdin') or '').strip() not in ('y', 'Y')))
         else:
             plan.append(('list',))
     judge(run, scn, plan, res)
